@@ -278,7 +278,17 @@ def _retire_filter(repo, rep, f):
     for lp in ast.walk(f.node):
         if isinstance(lp, ast.For) and any(p_ in ast.walk(lp)
                                            for p_ in pops):
-            for x in ast.walk(lp.iter):
+            it_ = lp.iter
+            if isinstance(it_, ast.Name):
+                defs_ = [a_.value for a_ in ast.walk(f.node)
+                         if isinstance(a_, ast.Assign) and any(
+                             isinstance(t_, ast.Name) and t_.id == it_.id
+                             for t_ in a_.targets)]
+                if len(defs_) == 1:
+                    it_ = defs_[0]
+            srcs_ = [g.iter for g in it_.generators] if isinstance(
+                it_, (ast.ListComp, ast.GeneratorExp, ast.SetComp)) else [it_]
+            for x in [y for s_ in srcs_ for y in ast.walk(s_)]:
                 if isinstance(x, ast.Attribute) and src(x.value) == "self":
                     walked.add(x.attr)
                 if isinstance(x, ast.Call) and src(x.func) in ("vars",
